@@ -82,6 +82,9 @@ func configs(thorough bool) []bcfg {
 		for _, w := range words(4) {
 			mk(w, 2, "all", menuTransport, all)
 		}
+		for _, w := range words(3) {
+			out = append(out, bcfg{Name: fmt.Sprintf("%s/b2/expire", w), Word: w, Budget: 2, StepFaults: []string{"send", "recv", "ferr"}, Faults: []string{"streamBreak", "F.offline"}, K: len(w) + 4, Expire: true})
+		}
 		return out
 	}
 	// one fault per path: the menu is split into two disjoint halves per word (every path uses at most one
@@ -109,7 +112,11 @@ func configs(thorough bool) []bcfg {
 
 func main() {
 	f := vevid.ParseFlags()
-	rep := vevid.New("C08")
+	prop := "C08"
+	if p := os.Getenv("VERIF_PROP"); p != "" {
+		prop = p
+	}
+	rep := vevid.New(prop)
 	gRep = rep
 	debug.SetPanicOnFault(true)
 	dp, ii, _, _ := queue.VerifConstants()
@@ -183,6 +190,15 @@ func main() {
 	}
 
 	cfgs := configs(f.Thorough())
+	if os.Getenv("C08_ONLY") == "expire" { // part "expire" of C06: only the configurations with an expired family
+		var sel []bcfg
+		for _, c := range cfgs {
+			if c.Expire {
+				sel = append(sel, c)
+			}
+		}
+		cfgs = sel
+	}
 	if only := os.Getenv("C08_CONFIGS"); only != "" { // debugging: comma separated config names
 		var sel []bcfg
 		for _, n := range strings.Split(only, ",") {
